@@ -87,9 +87,9 @@ class PositiveScalar(RegionAttribute):
             raise ValueError(f'{self.name!r} must be a scalar integer or '
                              'float')
 
-        if not np.isscalar(value) or value <= 0:
+        if not np.isscalar(value) or value <= 0 or not np.isfinite(value):
             raise ValueError(f'{self.name!r} must be a strictly positive '
-                             'scalar')
+                             '(finite) scalar')
 
 
 class ScalarSkyCoord(RegionAttribute):
@@ -147,8 +147,9 @@ class PositiveScalarAngle(RegionAttribute):
             if not value.unit.physical_type == 'angle':
                 raise ValueError(f'{self.name!r} must have angular units')
 
-            if not value > 0:
-                raise ValueError(f'{self.name!r} must be strictly positive')
+            if not value > 0 or not np.isfinite(value):
+                raise ValueError(f'{self.name!r} must be strictly positive '
+                                 'and finite')
         else:
             raise ValueError(f'{self.name!r} must be a strictly positive '
                              'scalar angle')
